@@ -121,6 +121,12 @@ def corpus(gen, max_stack, max_out, per_context=0):
     return sents, info
 
 
+def nd_lines(path):
+    """Lines of an ndjson file. Only \\n separates events: texts may contain U+0085, U+2028 ... unescaped."""
+    with open(path, encoding="utf-8", newline="\n") as fh:
+        return [ln for ln in fh.read().split("\n") if ln.strip()]
+
+
 def write_ndjson(path, rows):
     with open(path, "w") as fh:
         for x in rows:
@@ -129,7 +135,7 @@ def write_ndjson(path, rows):
 
 def split_lines(path, outdir, nchunks, min_lines=200):
     """A JVM start costs ~7 s of CPU, an event 0.3-3 ms: few, large chunks."""
-    lines = open(path).read().splitlines()
+    lines = nd_lines(path)
     n = max(1, min(nchunks, len(lines) // min_lines))
     size = (len(lines) + n - 1) // n
     chunks = []
@@ -221,13 +227,19 @@ def check_c17(v, d):
         if prop == "C17":
             v.reject(cls, brief(ev), {"trace_line": ln, "event": ev})
     dead = sorted(res["dead"] or [])
+    evs = vlib.read_ndjson(trace)
     for (r, i) in dead:
+        mine = [e for e in evs if e.get("r") == r and e.get("i") == i]
+        if mine and all(e["want"] != e["kinds"] for e in mine):
+            # every sentence generated for this alternative lexed to something else: the harness cannot write
+            # the tokens of this alternative (e.g. a token kind added after harness/gram) - not a verdict
+            raise Infra("cannot concretise any sentence for alternative %s/%d (e.g. %r lexed as %s)" % (
+                r, i, mine[0]["text"], mine[0]["kinds"]))
         alt = g["plain"].get(r, [])
         a = alt[i - 1] if 0 < i <= len(alt) else []
         w = {"rule": r, "alternative": i, "elements": " ".join(e["v"] for e in a) or "(empty)",
              "what": "no generated statement is accepted by the real parser through this alternative"}
         v.reject("dead-alternative", w, w)
-    evs = vlib.read_ndjson(trace)
     lex_ok = sum(1 for e in evs if e["want"] == e["kinds"])
     acc = sum(1 for e in evs if e["acc"])
     if acc == 0:
@@ -268,30 +280,22 @@ def check_c18(v, d):
     #     seeded 2% of length 3; thorough: all of length 3)
     pargs = ["parse", "-in", sp, "-trailing", "-mutations", "2" if quick else "8", "-enum", "3",
              "-enum-keep", "0.02" if quick else "1", "-subst-keep", "1"]
-    ptrace, pst = run_driver("parsedrv", pargs, d, "parse")
-    pres = validate("ParserTrace", gen, ptrace)
-    # (2) statelessness: every base statement cut at every token position (and whole), then every probe, on ONE
-    #     parser vs a fresh parser; seeded random histories of 2..6 statements
     hargs = ["history", "-in", sp] + (["-bases", "40", "-probes", "12", "-random", "400"] if quick
                                       else ["-bases", "160", "-probes", "30", "-random", "6000"])
-    htrace, hst = run_driver("parsedrv", hargs, d, "history")
-    hres = validate("ParserTrace", gen, htrace, per_chunk=40000)
+
+    def part(args, tag, per_chunk):
+        trace, st = run_driver("parsedrv", args, d, tag)
+        return trace, st, validate("ParserTrace", gen, trace, per_chunk=per_chunk, workers=4 if quick else 7)
+
+    # (2) statelessness: every base statement cut at every token position (and whole), then every probe, on ONE
+    #     parser vs a fresh parser; seeded random histories of 2..6 statements.  Both parts run side by side.
+    with cf.ThreadPoolExecutor(max_workers=2) as ex:
+        fp = ex.submit(part, pargs, "parse", 10000)
+        fh = ex.submit(part, hargs, "history", 40000)
+        (ptrace, pst, pres), (htrace, hst, hres) = fp.result(), fh.result()
     if pst.get("p:plain-accepted", 0) == 0 or hst.get("a:probe-fresh-accepted", 0) == 0:
         raise Infra("vacuous run: no statement accepted (%s %s)" % (pst, hst))
-    nrej = 0
-    for (ln, prop, cls, ev) in pres["rejects"] + hres["rejects"]:
-        if prop != "C18":
-            continue
-        nrej += 1
-        if ev["ev"] == "A":
-            if ev.get("attr_other") or not ev.get("attr"):
-                v.reject("history-dependent:state-outside-hook-closures", brief_a(ev), {"trace_line": ln, "event": ev})
-            else:
-                # the difference disappears exactly when the closures of these hook families are rebuilt
-                for fam in ev["attr"]:
-                    v.reject("closure-state-survives-parse:" + fam, brief_a(ev), {"trace_line": ln, "event": ev})
-        else:
-            v.reject(cls, brief(ev), {"trace_line": ln, "event": ev})
+    nrej = judge_c18(v, pres["rejects"] + hres["rejects"])
     pev = vlib.read_ndjson(ptrace)
     samples = [brief(pev[i]) for i in (0, len(pev) // 2, len(pev) - 1)]
     with open(htrace) as fh:
@@ -316,6 +320,24 @@ def check_c18(v, d):
         "a probe whose meaning differs between two FRESH parsers is not judged (open)",
     ]
     return v.finish()
+
+
+def judge_c18(v, rejects):
+    nrej = 0
+    for (ln, prop, cls, ev) in rejects:
+        if prop != "C18":
+            continue
+        nrej += 1
+        if ev["ev"] == "A":
+            if ev.get("attr_other") or not ev.get("attr"):
+                v.reject("history-dependent:state-outside-hook-closures", brief_a(ev), {"trace_line": ln, "event": ev})
+            else:
+                # the difference disappears exactly when the closures of these hook families are rebuilt
+                for fam in ev["attr"]:
+                    v.reject("closure-state-survives-parse:" + fam, brief_a(ev), {"trace_line": ln, "event": ev})
+        else:
+            v.reject(cls, brief(ev), {"trace_line": ln, "event": ev})
+    return nrej
 
 
 def brief_a(ev):
@@ -357,6 +379,19 @@ def c16_class(cls, ev):
     return cls
 
 
+def judge_c16(v, rejects, tag):
+    for (ln, prop, cls, ev) in rejects:
+        w = {"class": cls, "event": ev["ev"]}
+        if ev["ev"] == "Pair":
+            w.update({"variant": ev["var"], "a": brief_run(ev["a"]), "b": brief_run(ev["b"])})
+        else:
+            w.update(brief_run(ev))
+            if ev["ev"] == "One":
+                w["expected_kind"] = ev["kind"]
+        v.reject(c16_class(cls, ev), w, {"trace_line": ln, "mode": tag, "event": ev})
+    return len(rejects)
+
+
 def lexdrv(args, d, tag, v):
     """Runs lexdrv; a driver killed by the code under test (panic in the lexer goroutine) is turned into
     a rejected case by re-running carefully to find the input."""
@@ -393,25 +428,21 @@ def check_c16(v, d):
         ("random", ["random", "-in", sp, "-n", "4000" if quick else "60000"]),
     ]
     stats, states, events, opens, nrej, samples = {}, 0, 0, 0, 0, []
-    for tag, args in runs:
+
+    def mode(run):
+        tag, args = run
         trace, st = lexdrv(args, d, tag, v)
+        return tag, trace, st, validate("LexerTrace", {}, trace, per_chunk=50000, workers=3 if quick else 6)
+
+    with cf.ThreadPoolExecutor(max_workers=4) as ex:
+        done = list(ex.map(mode, runs))
+    for tag, trace, st, res in done:
         stats.update(st)
-        res = validate("LexerTrace", {}, trace, per_chunk=50000)
         states += res["states"]
         events += res["events"]
         opens += res["opens"]
-        for (ln, prop, cls, ev) in res["rejects"]:
-            nrej += 1
-            w = {"class": cls, "event": ev["ev"]}
-            if ev["ev"] == "Pair":
-                w.update({"variant": ev["var"], "a": brief_run(ev["a"]), "b": brief_run(ev["b"])})
-            else:
-                w.update(brief_run(ev))
-                if ev["ev"] == "One":
-                    w["expected_kind"] = ev["kind"]
-            v.reject(c16_class(cls, ev), w, {"trace_line": ln, "mode": tag, "event": ev})
-        with open(trace) as fh:
-            lines = fh.read().splitlines()
+        nrej += judge_c16(v, res["rejects"], tag)
+        lines = nd_lines(trace)
         e = json.loads(lines[len(lines) // 2])
         samples.append({"mode": tag, "a": brief_run(e["a"]), "b": brief_run(e["b"]), "variant": e["var"]} if e["ev"] == "Pair"
                        else dict(brief_run(e), mode=tag))
@@ -453,7 +484,7 @@ def run_batches(d, cases_path, ncases, v, batch=400, workers=4):
         while a < b:
             out = os.path.join(d, "run-%d-%d.ndjson" % (idx, a))
             p = child(a, b, out)
-            got = open(out).read().splitlines() if os.path.exists(out) else []
+            got = nd_lines(out) if os.path.exists(out) else []
             lines += got
             if p.returncode == 0:
                 break
@@ -464,7 +495,7 @@ def run_batches(d, cases_path, ncases, v, batch=400, workers=4):
                 out2 = os.path.join(d, "rerun-%d.ndjson" % last)
                 p2 = child(last, last + 1, out2)
                 if p2.returncode != 9:
-                    lines[-1:] = open(out2).read().splitlines()
+                    lines[-1:] = nd_lines(out2)
                 a = last + 1
                 continue
             killer = last + 1
@@ -476,7 +507,7 @@ def run_batches(d, cases_path, ncases, v, batch=400, workers=4):
             if p2.returncode in (0, 9):
                 raise Infra("rundrv died (rc=%d) after case %d but case %d alone does not kill it: %s" % (
                     p.returncode, last, killer, p.stderr[-1500:]))
-            case = json.loads(open(cases_path).read().splitlines()[killer])
+            case = json.loads(nd_lines(cases_path)[killer])
             err = p2.stderr
             m = re.search(r"^(panic: .*|fatal error: .*|.*\[FATAL\].*|\d{4}/\d\d/\d\d .*)$", err, re.M)
             site = ""
@@ -517,16 +548,41 @@ def c08_class(cls, ev):
     are attributed to a known finding only if the text has the shape that finding names."""
     if cls in ("panic", "process-killed"):
         site = ev.get("site", "")
-        if site == "triple/literal.(*unboundBuilder).Parse" and re.search(r'"[^"]?"\^\^type:blob', ev["text"], re.I) \
-                and "slice bounds out of range" in (ev.get("panic") or ev.get("msg") or ""):
-            return "panic:blob-literal-shorter-than-its-brackets"
+        msg = ev.get("panic") or ev.get("msg") or ""
+        text = ev["text"]
+        if site == "triple/literal.(*unboundBuilder).Parse" and "slice bounds out of range" in msg \
+                and re.search(r'"[^"]?"\^\^type:blob', text, re.I):
+            return "panic:literal-parse-blob-shorter-than-brackets"
+        if site == "triple/predicate.Parse" and "index out of range [-1]" in msg and '@["]' in text:
+            return "panic:predicate-parse-anchor-lone-quote"
+        if site == "bql/planner.(*queryPlan).specifyClauseWithTable" and "nil pointer dereference" in msg \
+                and ev.get("stage") == "execute" and re.search(r'@\[(\?[^,\]]*,[^\]]*|[^,\]]*,\s*\?[^\]]*)\]', text):
+            return "panic:time-bound-alias-not-in-row"
         return "%s:%s" % (cls, site or "?")
     return cls
+
+
+def lexpipe():
+    """Layer B model of lexer goroutine || channel || parser (spec/LexPipe.tla): TLC checks that the goroutine
+    is left behind exactly when n - taken > Cap, that draining removes the leak, and that <>LexerDone FAILS
+    without draining (the counterexample is the leak observed on the real code)."""
+    with cf.ThreadPoolExecutor(max_workers=3) as ex:
+        rs = list(ex.map(lambda c: vlib.run_tlc("LexPipe", c, workers=1, timeout=600), ("LexPipe.cfg", "LexPipeDrain.cfg", "LexPipeLive.cfg")))
+    if rs[0].violation or rs[1].violation:
+        raise Infra("LexPipe.tla violates its invariants: %s %s" % (rs[0].violation, rs[1].violation))
+    return {"states": rs[0].distinct + rs[1].distinct, "transitions": rs[0].generated + rs[1].generated,
+            "lexer_done_fails_without_drain": bool(rs[2].violation)}
 
 
 def check_c08(v, d):
     tier = v.tier
     quick = tier == "quick"
+    with cf.ThreadPoolExecutor(max_workers=1) as ex0:
+        fpipe = ex0.submit(lexpipe)
+        return check_c08_body(v, d, quick, fpipe)
+
+
+def check_c08_body(v, d, quick, fpipe):
     g, gen = grammar_data(d)
     sents, dinfo = corpus(gen, 20, 40, per_context=1 if quick else 0)
     sp = os.path.join(d, "sentences.ndjson")
@@ -553,19 +609,22 @@ def check_c08(v, d):
     for (ln, prop, cls, ev) in res["rejects"]:
         v.reject(c08_class(cls, ev), brief_r(ev), {"trace_line": ln, "event": ev})
     drift = len(vlib.parse_printed(res["printed"], "DRIFT"))
+    pipe = fpipe.result()
     srcs = {}
     for e in evs:
         srcs[e["src"]] = srcs.get(e["src"], 0) + 1
     picks = [evs[0], evs[len(evs) // 2]] + [e for e in evs if e["outcome"] == "Table" and e.get("rows", 0) > 0][:1] \
         + [e for e in evs if e["src"] == "random"][:1]
     v.cov.update({
-        "states": dinfo["distinct_states"] + res["states"], "transitions": dinfo["edges"] + res["events"],
+        "states": dinfo["distinct_states"] + res["states"] + pipe["states"],
+        "transitions": dinfo["edges"] + res["events"] + pipe["transitions"],
         "traces_validated_against_impl": 1,
+        "layer_b_lexpipe": pipe,
         "derivation_machine": dinfo, "runs": ncases, "runs_by_source": srcs, "runs_by_outcome_and_stage": by,
         "stores": ["populated (3 graphs, 8 near-miss triples in 2 of them)", "empty"],
         "rejected_events": len(res["rejects"]), "layer_b_drift_leak_predicted_not_observed": drift,
         "evaluations": ncases, "distinct_nontrivial": len(set(e["text"] for e in evs if e["stage"] != "parse")),
-        "rule": "grammar-generated statements (TLC derivation machine, both alternative orders) with plain and hostile texts, their prefixes, prefix + one token, token mutations, statement + trailing statement, all token-kind sequences up to length 3 (quick: seeded 2% of length 3), seeded random bytes / fragments / byte mutations; non-trivial = distinct texts that passed the parser and reached planning or execution",
+        "rule": "grammar-generated statements (TLC derivation machine, both alternative orders) with plain and hostile texts, one hostile text at a time per (rule, value token kind), their prefixes, prefix + one token, token mutations, statement + trailing statement, all token-kind sequences up to length 3 (quick: seeded 2% of length 3), seeded random bytes / fragments / byte mutations; non-trivial = distinct texts that passed the parser and reached planning or execution",
         "samples": [brief_r(e) for e in picks],
     })
     v.assumptions += [
@@ -577,6 +636,63 @@ def check_c08(v, d):
 
 
 # ------------------------------------------------------------------------------------------------
+
+class ReplayVerdict(Verdict):
+    """Verdict of a replayed case: same classification and output lines, but the evidence file of the last
+    full run is left alone."""
+
+    def finish(self):
+        for cls, (n, w) in sorted(self.known.items()):
+            f = self.findings.known(self.prop, cls)
+            print("KNOWN-FINDING: property=%s %s: %s (replayed; %s)" % (self.prop, cls, f.get("what", ""), json.dumps(w)[:300]))
+        for (cls, w, ro) in self.violations[:5]:
+            print("VIOLATION property=%s replay=%s" % (self.prop, os.environ.get("VERIF_REPLAY")))
+            print("  class=%s witness=%s" % (cls, json.dumps(w)[:600]))
+        if not self.known and not self.violations:
+            print("replayed case conforms to the specification on this tree")
+        return 1 if self.violations else 0
+
+
+def replay(prop, obj):
+    """./check <ID> --replay <file written by a VIOLATION line> (called by ./check with the loaded record): the
+    logged input is executed again on the current tree, recorded, validated by the same trace specification
+    and classified the same way."""
+    d = vlib.scratch("grammar-replay-")
+    ev = (obj.get("replay") or {}).get("event")
+    v = ReplayVerdict(prop, vlib.tier(), LEVEL[prop])
+    if prop == "C17" or ev is None or prop != obj.get("property"):
+        if prop == "C17":  # table facts and dead alternatives are facts about the whole table: re-check it
+            vlib.build_harness(["grammardump", "parsedrv"])
+            return check_c17(v, d)
+        raise Infra("nothing to replay for %s in a record of %s" % (prop, obj.get("property")))
+    inp = os.path.join(d, "replay.ndjson")
+    if prop == "C18":
+        vlib.build_harness(["grammardump", "parsedrv"])
+        g, gen = grammar_data(d)
+        case = {"hist": [h["text"] for h in ev["hist"]], "text": ev["text"]} if ev["ev"] == "A" else {"text": ev["text"], "w": ev["ev"] == "W"}
+        write_ndjson(inp, [case])
+        trace, _ = run_driver("parsedrv", ["texts", "-in", inp], d, "replayed")
+        judge_c18(v, validate("ParserTrace", gen, trace, workers=1)["rejects"])
+    elif prop == "C16":
+        vlib.build_harness(["grammardump", "lexdrv"])
+        if ev["ev"] == "Pair":
+            case = {"var": ev["var"], "a": ev["a"]["in"], "b": ev["b"]["in"]}
+        elif ev["ev"] == "One":
+            case = {"kind": ev["kind"], "quotes": ev["quotes"], "in": ev["in"]}
+        else:
+            case = {"in": ev["in"]}
+        write_ndjson(inp, [case])
+        trace, _ = lexdrv(["texts", "-in", inp], d, "replayed", v)
+        judge_c16(v, validate("LexerTrace", {}, trace, workers=1)["rejects"], "replay")
+    elif prop == "C08":
+        vlib.build_harness(["grammardump", "rundrv"])
+        g, gen = grammar_data(d)
+        write_ndjson(inp, [{"src": "replay", "store": ev.get("store", "populated"), "text": ev["text"]}])
+        trace = run_batches(d, inp, 1, v, batch=1, workers=1)
+        for (ln, p_, cls, e) in validate("RunTrace", gen, trace, workers=1)["rejects"]:
+            v.reject(c08_class(cls, e), brief_r(e), {"trace_line": ln, "event": e})
+    return v.finish()
+
 
 LEVEL = {"C17": "model_checking", "C18": "model_checking", "C16": "model_checking", "C08": "model_checking"}
 
